@@ -126,3 +126,97 @@ def check_batch(res: Result, lcs: List[LaunchCtx], tags: Set[str], writes_only=F
         sample={"kernel": lc.name, "array": a.root, "index0": show(a.idx[0]), "form": form, "loc": a.loc} if n % 120 == 1 else None,
       )
   return n, unknown
+
+
+def host_seeded_fields(sm) -> dict:
+  """Data fields that make_data initialises from host-side MuJoCo results (`mjd.<x>` after mj_kinematics etc.), i.e.
+  derived quantities computed once from the *unbatched* MjModel. Extracted from the Data(...) keyword dict in io.make_data."""
+  import ast
+
+  fi = sm.func("io.make_data")
+  out = {}
+  for n in ast.walk(fi.node):
+    if isinstance(n, ast.Dict):
+      for k, v in zip(n.keys, n.values):
+        if isinstance(k, ast.Constant) and isinstance(k.value, str) and v is not None:
+          srcs = sorted({x.attr for x in ast.walk(v) if isinstance(x, ast.Attribute) and isinstance(x.value, ast.Name) and x.value.id == "mjd"})
+          if srcs:
+            out["Data." + k.value] = srcs
+  return out
+
+
+def check_seeded_vs_batched(res, db, lcs) -> int:
+  """R-BATCH.4: a Data field that make_data seeds from the unbatched MjModel and that a step kernel recomputes from
+  batched ('*') Model fields must be recomputed for EVERY element whenever those fields are batched. If the kernel skips
+  elements on a purely model-determined condition (static geoms), the skipped elements keep world 0's compiled value in
+  every world: the per-world parameter has no effect there. Accepted: the skip is taken only under
+  `<field>.shape[0] == 1` for each batched field the recomputation reads."""
+  from ..report import Finding
+  from ..terms import T, pc_literals, show, subterms
+  from .world import array_key
+
+  seeded = host_seeded_fields(db.sm)
+  if len(seeded) < 3:
+    res.error(f"anchor vanished: make_data seeds only {sorted(seeded)} from host results")
+  n = 0
+  seen = set()
+  for lc in lcs:
+    for a in lc.keval.accesses:
+      if a.kind != "w" or a.value is None:
+        continue
+      key = array_key(lc, a.root)
+      if key not in seeded:
+        continue
+      batched = {}
+      for s in subterms(a.value):
+        if s.op == "ld":
+          f = lc.field(s.args[0])
+          if f is not None and f.owner == "Model" and f.is_array and f.first == "*":
+            batched[s.args[0]] = f.path
+      if not batched:
+        continue
+      # model-determined skip: a path literal built only from Model-array loads, thread indices and constants
+      skips = []
+      others = [set(pc_literals(b.pc)) for b in lc.keval.accesses if b is not a and b.kind == "w" and array_key(lc, b.root) == key]
+
+      def covered_elsewhere(t, pol):
+        """is the complement of this literal the path of another write to the same field (if/else, not a skip)?"""
+        if t.op == "all" and not pol:
+          want = set()
+          for l in t.args:
+            want.add((l.args[0], l.args[1]))
+          return any(want <= o for o in others)
+        return any((t, not pol) in o for o in others)
+
+      for t, pol in pc_literals(a.pc):
+        if covered_elsewhere(t, pol):
+          continue
+        parts = list(t.args) if t.op == "all" else [t]
+        flat = []
+        for p_ in parts:
+          flat.append(p_.args[0] if isinstance(p_, T) and p_.op == "lit" else p_)
+        lds = [s for x in flat for s in subterms(x) if isinstance(s, T) and s.op == "ld"]
+        if not lds:
+          continue
+        if all((lc.field(s.args[0]) is not None and lc.field(s.args[0]).owner == "Model") for s in lds):
+          # which batched fields does this skip explicitly require to be unbatched?
+          unb = {s.args[1].args[0] for x in flat for s in subterms(x) if isinstance(s, T) and s.op == "cmp" and s.args[0] == "==" and isinstance(s.args[1], T) and s.args[1].op == "shape" and s.args[1].args[1] == 0 and isinstance(s.args[2], T) and s.args[2].op == "c" and s.args[2].args[0] == 1}
+          skips.append((t, unb))
+      sig = (lc.name, key)
+      if sig in seen:
+        continue
+      seen.add(sig)
+      n += 1
+      missing = sorted({p for r, p in batched.items() if any(r not in unb for _, unb in skips)}) if skips else []
+      res.ob(
+        not missing,
+        f"{lc.name}|{key}|seeded-vs-batched",
+        Finding(
+          "R-BATCH.4",
+          f"{lc.name}|{key}|skipped-elements-ignore-batched|{'+'.join(missing)}",
+          f"{key} is seeded by make_data from the unbatched MjModel ({', '.join(seeded[key])}) and recomputed here from the batched field(s) {missing}, but only for elements passing the model-determined test `{show(skips[0][0])[:120] if skips else ''}`: the skipped elements keep world 0's compiled value in every world, so per-world {missing} have no effect on them",
+          a.loc,
+        ),
+        sample={"kernel": lc.name, "field": key, "batched_inputs": sorted(batched.values()), "model_determined_skip": bool(skips)},
+      )
+  return n
